@@ -485,6 +485,13 @@ class Gen:
                 w = self.fresh("n")
                 out += [f"{ind}{w} = 0", f"{ind}while {v} is not None and {w} < 2:", f"{ind}    {self.use(inner, v, env, acc)}", f"{ind}    {w} += 1"]
             return out
+        if t[0] == "union" and set(t[1]) <= {INT, STR, BYTES, NONE} and (INT in t[1] or STR in t[1]) and r.random() < 0.6:
+            self.features.add("narrow:in-tuple")
+            if INT in t[1]:
+                out += [f"{ind}if {v} in (0, 1, 7):", f"{ind}    {acc} += {v} + 1", f"{ind}else:", f"{ind}    {acc} += len(str({v}))"]
+            else:
+                out += [f"{ind}if {v} in ('a', 'hello'):", f"{ind}    {acc} += len({v}.upper())", f"{ind}else:", f"{ind}    {acc} += len(str({v}))"]
+            return out
         if t[0] == "union":
             items = list(t[1])
             form = r.choice(["isinstance_chain", "isinstance_chain", "match", "not_isinstance", "tuple_isinstance"])
@@ -543,13 +550,6 @@ class Gen:
             else:
                 out += [f"{ind}match {v}:", f"{ind}    case ({a0}, *{a2}, {a1}):", f"{ind}        {acc} += {a0} + len({a1}) + len({a2})",
                         f"{ind}    case ({a0}, *{a2}):", f"{ind}        {acc} += {a0} - len({a2})"]
-            return out
-        if t[0] == "union" and set(t[1]) <= {INT, STR, BYTES, NONE} and (INT in t[1] or STR in t[1]) and r.random() < 0.6:
-            self.features.add("narrow:in-tuple")
-            if INT in t[1]:
-                out += [f"{ind}if {v} in (0, 1, 7):", f"{ind}    {acc} += {v} + 1", f"{ind}else:", f"{ind}    {acc} += len(str({v}))"]
-            else:
-                out += [f"{ind}if {v} in ('a', 'hello'):", f"{ind}    {acc} += len({v}.upper())", f"{ind}else:", f"{ind}    {acc} += len(str({v}))"]
             return out
         if t == A:
             self.features.add("narrow:subclass")
@@ -726,9 +726,18 @@ def perturb(src: str, rng: random.Random) -> tuple[str, str] | None:
         return None
     ops = ["drop_none_check", "swap_isinstance", "widen_annotation", "narrow_annotation", "swap_args", "replace_operand", "negate_test",
            "drop_else", "change_return", "wrong_value", "swap_branches", "remove_or_default", "inject_any_eq", "inject_any_eq", "case_body_type"]
+    # lines on which each pattern-bound operator can apply (so that rare constructs get their share of mutants)
+    PAT = {"drop_none_check": r"\bif \w+ is (not )?None:", "swap_isinstance": r"isinstance\(", "negate_test": r"^\s*(if|elif|while) ",
+           "drop_else": r"^\s*else:$", "change_return": r"^\s*return ", "swap_branches": r"^\s*elif isinstance\(",
+           "inject_any_eq": r" in \((\d+|'[^']*'), | == (E\.[XYZ]|\d+|'[^']*'):", "remove_or_default": r" or ", "narrow_annotation": r"Optional\["}
     for _ in range(30):
         op = rng.choice(ops)
-        i = rng.choice(idxs)
+        cand = [j for j in idxs if re.search(PAT[op], lines[j])] if op in PAT else idxs
+        if op == "case_body_type":
+            cand = [j for j in idxs if j > 0 and lines[j - 1].strip().startswith("case ") and "+=" in lines[j]]
+        if not cand:
+            continue
+        i = rng.choice(cand)
         ln = lines[i]
         new = None
         if op == "drop_none_check" and re.search(r"\bif (\w+) is None:", ln):
